@@ -155,5 +155,170 @@ def sameShapeRoots : List Str → List Str → Bool
 def hasSameShapeRoots (cfg : Config) : Bool :=
   !pairwiseB (fun a b => !sameShapeRoots (tokenize a.rootPath) (tokenize b.rootPath)) cfg.services
 
+/-! ### C03 as a predicate on one observed outcome: "never less specific"
+
+When a route function ran, no OTHER candidate for the request beats it in the sense of the
+property:
+
+  * route level — no other route of the service dispatched to that admits the URL and is eligible
+    for the request (conditions, method, Content-Type, Accept: `Spec.eligible`) has a template that
+    is `moreSpecific` than the selected one (a literal segment where the selected has a variable,
+    same shape otherwise);
+  * root level, CurlyRouter — no other WebService whose root claims the URL has a root that is the
+    selected root with variables replaced by literals (`rootMoreSpecific`), or a proper extension
+    of the selected root (the selected root is its own strict prefix);
+  * root level, RouterJSR311 — among literal root paths: no other literal root that matches the URL
+    has more literal characters than the selected literal root.
+
+Nothing here ranks candidates by the routers' scores: the clauses are the property's own words. -/
+
+variable (E : ReEnv)
+
+/-! #### CurlyRouter -/
+
+/-- route `rt'` is a candidate for the request — its template admits the URL and the request is
+    eligible for it — and its template is more specific than the template `ts` -/
+def curlyRouteBeats (req : Req) (ts : List TTok) (rt' : Route) : Bool :=
+  match readTemplate rt'.path with
+  | some ts' => admits E .curly ts' (tokenize req.path) && eligible rt' req && moreSpecific ts' ts
+  | none => false
+
+/-- no candidate route of `svc` is more specific than `rt` -/
+def curlyRouteOK (svc : Service) (rt : Route) (req : Req) : Bool :=
+  match readTemplate rt.path with
+  | some ts => svc.built.all (fun rt' => !curlyRouteBeats E req ts rt')
+  | none => false
+
+/-- root `a` continues root `b`: `b` is a strict prefix of `a` -/
+def rootProperExtension (a b : List Str) : Bool := b.isPrefixOf a && a != b
+
+/-- the root of `s'` claims the URL (`computeWebserviceScore` says yes) -/
+def rootClaims (qs : List Str) (s' : Service) : Bool :=
+  match Curly.wsScoreE E qs (tokenize s'.rootPath) with
+  | .yes _ => true
+  | _ => false
+
+/-- the root of `s'` claims the URL and is more specific than the root of `svc`: literals where
+    that one has variables (same length, a literal wherever that one has a literal), or a proper
+    extension of it -/
+def curlyRootBeats (qs : List Str) (svc s' : Service) : Bool :=
+  rootClaims E qs s' &&
+    (rootMoreSpecific (tokenize s'.rootPath) (tokenize svc.rootPath) ||
+      rootProperExtension (tokenize s'.rootPath) (tokenize svc.rootPath))
+
+/-- no WebService whose root claims the URL has a more specific root than `svc` -/
+def curlyRootOK (cfg : Config) (svc : Service) (req : Req) : Bool :=
+  cfg.services.all (fun s' => !curlyRootBeats E (tokenize req.path) svc s')
+
+/-! #### RouterJSR311 -/
+
+/-- the expression token of `path_expression.go` a structured template token stands for
+    (`{v}suffix` is not a RouterJSR311 token: `tokJsrOK` excludes it) -/
+def jsrTok (t : TTok) : Jsr.JTok :=
+  match t.base with
+  | .lit s => .lit s
+  | .var n => .var n
+  | .re n e => .re n e
+  | .suf n _ => .var n
+  | .wild n => .wild n
+
+/-- the structured reading of a route-relative path, inside what RouterJSR311 documents -/
+def relTemplateJ (rel : Str) : Option (List TTok) :=
+  match readToks (nonEmptyToks rel) with
+  | some ts => if ts.all tokJsrOK then some ts else none
+  | none => none
+
+/-- what the root of `svc` leaves of the URL for its routes (the final group of the root's match) -/
+def jsrFinalGroup (svc : Service) (path : Str) : Option Str :=
+  match Jsr.compile svc.rootPath with
+  | some wex => (Jsr.matchExpr E wex.toks path).map (·.2)
+  | none => none
+
+/-- the route-relative template matches the whole of `final` (a trailing `/` may be left over) -/
+def jsrMatchesFinal (ts : List TTok) (final : Str) : Bool :=
+  match Jsr.matchExpr E (ts.map jsrTok) final with
+  | some (_, f) => f.isEmpty || f == ['/']
+  | none => false
+
+/-- route `rt'` is a candidate for the request — its relative template matches what the root left,
+    and the request is eligible for it — and its template is more specific than `ts` -/
+def jsrRouteBeats (req : Req) (final : Str) (ts : List TTok) (rt' : Route) : Bool :=
+  match relTemplateJ rt'.relPath with
+  | some ts' => jsrMatchesFinal E ts' final && eligible rt' req && moreSpecific ts' ts
+  | none => false
+
+/-- no candidate route of `svc` is more specific than `rt` -/
+def jsrRouteOK (svc : Service) (rt : Route) (req : Req) : Bool :=
+  match jsrFinalGroup E svc req.path, relTemplateJ rt.relPath with
+  | some final, some ts => svc.built.all (fun rt' => !jsrRouteBeats E req final ts rt')
+  | _, _ => false
+
+/-- the compiled root of a WebService whose root path has literal tokens only -/
+def jsrLiteralRoot (s : Service) : Option Jsr.Expr :=
+  match Jsr.compile s.rootPath with
+  | some ex => if ex.toks.all (fun t => match t with | .lit _ => true | _ => false) then some ex else none
+  | none => none
+
+/-- among literal roots: no literal root that matches the URL has more literal characters than
+    the (literal) root of `svc`; says nothing when the root of `svc` has a variable -/
+def jsrRootOK (cfg : Config) (svc : Service) (req : Req) : Bool :=
+  match jsrLiteralRoot svc with
+  | none => true
+  | some ex => cfg.services.all (fun s' =>
+      match jsrLiteralRoot s' with
+      | some ex' => !((Jsr.matchExpr E ex'.toks req.path).isSome && decide (ex'.literalCount > ex.literalCount))
+      | none => true)
+
+/-- **C03 as a predicate on an observed outcome**: if a route function ran, some declaration with
+    its identity is not beaten by any other candidate, at route level and at root level -/
+def c03Holds (cfg : Config) (req : Req) (o : Outcome) : Bool :=
+  match o with
+  | .selected s r _ =>
+    cfg.services.any (fun svc => svc.id == s && svc.built.any (fun rt => rt.id == r &&
+      (match cfg.router with
+       | .curly => curlyRouteOK E svc rt req && curlyRootOK E cfg svc req
+       | .jsr => jsrRouteOK E svc rt req && jsrRootOK E cfg svc req)))
+  | _ => true
+
+/-! #### coverage classes (reported by the driver, counted by the harness): was the selection contested? -/
+
+/-- the routes of `svc` that are candidates for the request: the template admits the URL
+    (RouterJSR311: the relative template matches what the root leaves) and the request is eligible -/
+def routeCandidates (k : RouterKind) (svc : Service) (req : Req) : List Route :=
+  match k with
+  | .curly => svc.built.filter (fun rt =>
+      match readTemplate rt.path with
+      | some ts => admits E .curly ts (tokenize req.path) && eligible rt req
+      | none => false)
+  | .jsr =>
+    match jsrFinalGroup E svc req.path with
+    | some final => svc.built.filter (fun rt =>
+        match relTemplateJ rt.relPath with
+        | some ts => jsrMatchesFinal E ts final && eligible rt req
+        | none => false)
+    | none => []
+
+/-- the WebServices the root-level clause compares: CurlyRouter — the root claims the URL;
+    RouterJSR311 — a literal root that matches the URL -/
+def rootCandidates (cfg : Config) (req : Req) : List Service :=
+  match cfg.router with
+  | .curly => cfg.services.filter (rootClaims E (tokenize req.path))
+  | .jsr => cfg.services.filter (fun s =>
+      match jsrLiteralRoot s with
+      | some ex => (Jsr.matchExpr E ex.toks req.path).isSome
+      | none => false)
+
+/-- a route function ran and its WebService had two or more candidate routes -/
+def c03RoutesContested (cfg : Config) (req : Req) (o : Outcome) : Bool :=
+  match o with
+  | .selected s _ _ => cfg.services.any (fun svc => svc.id == s && decide ((routeCandidates E cfg.router svc req).length ≥ 2))
+  | _ => false
+
+/-- a route function ran and two or more WebService roots were candidates -/
+def c03RootsContested (cfg : Config) (req : Req) (o : Outcome) : Bool :=
+  match o with
+  | .selected _ _ _ => decide ((rootCandidates E cfg req).length ≥ 2)
+  | _ => false
+
 end Spec
 end Restful
